@@ -46,6 +46,8 @@ pub struct Builder {
     contract_names: Vec<String>,
     in_loop: bool,
     all_state_vars: Vec<String>,
+    /// state variables and constants whose initialiser is a power of two written as `2 ** k`, `1 << k` or a literal
+    pow2_named: Vec<String>,
 }
 
 const ELEM_TYPES: [&str; 16] = [
@@ -57,7 +59,7 @@ const VALUE_TYPES: [&str; 12] =
 
 impl Builder {
     pub fn new(rng: &Rng, cfg: Cfg) -> Builder {
-        Builder { rng: Rng::from_seed(rng.next()), ids: IdGen(0), cfg, n: 0, state_vars: vec![], locals: vec![], arrays: vec![], fn_names: vec![], contract_names: vec![], in_loop: false, all_state_vars: vec![] }
+        Builder { rng: Rng::from_seed(rng.next()), ids: IdGen(0), cfg, n: 0, state_vars: vec![], locals: vec![], arrays: vec![], fn_names: vec![], contract_names: vec![], in_loop: false, all_state_vars: vec![], pow2_named: vec![] }
     }
     fn id(&mut self) -> Id {
         self.ids.next()
@@ -427,6 +429,13 @@ impl Builder {
                     self.num(&s)
                 } else {
                     self.num(&l)
+                };
+                // now and then the operand is not a literal at all but the NAME of a power-of-two constant declared in the file
+                let lit = if !self.pow2_named.is_empty() && self.rng.chance(1, 4) {
+                    let n = self.rng.pick(&self.pow2_named).clone();
+                    self.var(&n)
+                } else {
+                    lit
                 };
                 let e = self.small_expr(d);
                 let op = *self.rng.pick(&[BinOp::Mul, BinOp::Div, BinOp::Mul, BinOp::Div, BinOp::Add, BinOp::Mod, BinOp::Pow, BinOp::Shl]);
@@ -1166,6 +1175,7 @@ impl Builder {
             (false, true) => self.fresh("$sv"),
         };
         let needs_init = attrs.contains(&"constant");
+        let mut pow2_init = false;
         let init = if needs_init || (!is_fn && self.rng.chance(1, 3)) {
             let e = if self.rng.chance(1, 4) {
                 // values only known at deployment
@@ -1193,6 +1203,31 @@ impl Builder {
                         self.member(m, "value")
                     }
                 }
+            } else if self.rng.chance(1, 4) {
+                // named scaling factors: `Q96 = 2 ** 96`, `ONE = 1 << 64`, `WORD = 256`, `WAD = 10 ** 18`
+                pow2_init = true;
+                let k = self.rng.ps(&["1", "2", "8", "64", "96", "128", "255"]).to_string();
+                match self.rng.below(5) {
+                    0 | 1 => {
+                        let a = self.num("2");
+                        let b = self.num(&k);
+                        self.bin(BinOp::Pow, a, b)
+                    }
+                    2 => {
+                        let a = self.num("1");
+                        let b = self.num(&k);
+                        self.bin(BinOp::Shl, a, b)
+                    }
+                    3 => {
+                        let l = self.rng.ps(&["2", "256", "1024", "4294967296", "65536"]).to_string();
+                        self.num(&l)
+                    }
+                    _ => {
+                        let a = self.num("10");
+                        let b = self.num("18");
+                        self.bin(BinOp::Pow, a, b)
+                    }
+                }
             } else {
                 self.expr(2)
             };
@@ -1202,6 +1237,9 @@ impl Builder {
         };
         self.state_vars.push(name.clone());
         self.all_state_vars.push(name.clone());
+        if pow2_init {
+            self.pow2_named.push(name.clone());
+        }
         if is_array {
             self.arrays.push(name.clone());
         }
